@@ -365,6 +365,19 @@ def generate(rnd, tier, scale):
                 qs = [["eq", i, j]] + qs
             at = rnd.randint(0, len(queries))
             queries = queries[:at] + qs + queries[at:]
+        if rnd.random() < 0.15:
+            # many distinct n asked of ONE object, then the first again (per-instance caches of order statistics)
+            hi = rnd.randrange(nh)
+            ns = rnd.sample([1, 2, 3, 4, 5, 6], rnd.randint(4, 6))
+            qs = [["ostat", hi, nn, rnd.randint(-nn, nn - 1)] for nn in ns] + [["ostat", hi, ns[0], 0]]
+            at = rnd.randint(0, len(queries))
+            queries = queries[:at] + qs + queries[at:]
+        if rnd.random() < 0.25:
+            # compare two members of a twin family, then ask each for its lowest terms (types must stay its own)
+            i, j = rnd.randrange(nh), rnd.randrange(nh)
+            qs = [["eq", i, j], ["lt", j], ["lt", i], ["ostat", j, 2, 0]]
+            at = rnd.randint(0, len(queries))
+            queries = queries[:at] + qs + queries[at:]
         if pair:
             nn = rnd.choice([1, 2, 3])
             pos = rnd.randint(-nn, nn - 1)
